@@ -932,6 +932,22 @@ def ring_models(extra=None):
         return TOP
     m.on(by(None, ("map_or", "unwrap_or"), "core::option::Option"), opt_map_or)
 
+    def opt_unwrap_or_else(ex, st, fr, t, args):
+        v = args[0]
+        if isinstance(v, Obj) and v.variant == "Some":
+            return v.fields.get(0, TOP)
+        if isinstance(v, Obj) and v.variant == "None":
+            if isinstance(args[1], Obj) and args[1].adt == "closure":
+                return ex.call_closure(st, args[1], [])
+            if isinstance(args[1], Obj) and args[1].adt == "fn":
+                nm = (args[1].variant or "").rsplit("::", 1)[-1]
+                if nm == "zero":
+                    return Q.const(0)
+                if nm == "one":
+                    return Q.const(1)
+        return TOP
+    m.on(by(None, ("unwrap_or_else", "unwrap_or_default"), "core::option::Option"), opt_unwrap_or_else)
+
     def try_branch(ex, st, fr, t, args):
         v = args[0]
         if isinstance(v, Obj) and v.variant == "Some":
